@@ -156,11 +156,18 @@ def collect_impls(syn):
     return out
 
 
+def _ts_methods(crate, _memo={}):
+    """paths of every method of an `impl TS for ..` in the crate: helpers shared by them (and by nothing else) are theirs"""
+    if id(crate) not in _memo:
+        _memo[id(crate)] = frozenset(b.path for b in crate.bodies if b.raw.get("impl_trait") == "TS")
+    return _memo[id(crate)]
+
+
 def mir_shape(crate, body):
     """the TypeScript shapes a name()/inline() body can produce, as format-string-like literals (`{}` for a spliced-in
     value): the literal text it appends in control-flow order, split where the function chooses between alternatives
     (a call into another impl's name()/inline() ends one alternative)"""
-    ib = crate.inlined(body)
+    ib = crate.inlined(body, siblings=_ts_methods(crate))
     ems = M.text_emissions(ib)
     if not ems:
         return []
@@ -259,7 +266,7 @@ def class_table_rule(syn, crate, prop, rule="C12.R1"):
                 r.fail(prop, "tuple-arity %s" % o.get("arity"), "tuple impls cover arity %s, expected 1..=10" % o.get("arity"), o["file"], o["line"])
     # arrays: Range {0, N} and ARRAY_TUPLE_LIMIT switch (MIR)
     for meth in ("name", "inline"):
-        b = crate.ibody("<[T; N] as TS>::%s" % meth)
+        b = crate.inlined("<[T; N] as TS>::%s" % meth, siblings=_ts_methods(crate))
         if b is None:
             r.fail(prop, "anchor-missing <[T; N] as TS>::%s" % meth, "array impl not found")
             continue
@@ -321,7 +328,7 @@ def visit_agreement_rule(crate, prop, rule="C12.R2"):
             b = fns.get(fn)
             if b is None:
                 return None
-            b = crate.inlined(b)
+            b = crate.inlined(b, siblings=_ts_methods(crate))
             for _, t in b.calls():
                 f = t.get("fn") or {}
                 if f.get("trait") == "TS" and f["path"].split("::")[-1] in methods:
@@ -336,7 +343,7 @@ def visit_agreement_rule(crate, prop, rule="C12.R2"):
             b = fns.get(fn)
             if b is None:
                 return None, None
-            b = crate.inlined(b)
+            b = crate.inlined(b, siblings=_ts_methods(crate))
             vis, gen = set(), set()
             for _, t in b.calls():
                 f = t.get("fn") or {}
@@ -511,7 +518,7 @@ def map_key_rule(syn, prop, rule="C12.R4", crate=None):
         for b in crate.bodies:
             if b.raw.get("impl_trait") != "TS" or b.raw.get("assoc_name") not in ("name", "inline") or not (b.raw.get("impl_self") or "").startswith("std::collections::HashMap<"):
                 continue
-            ib = crate.inlined(b)
+            ib = crate.inlined(b, siblings=_ts_methods(crate))
             txt = "".join(t for _, t in M.text_emissions(ib))
             if "[key in " not in txt:
                 continue
